@@ -791,3 +791,476 @@ func hrResponseNilGuard(w *World, r *Report, rule string) {
 	}
 	r.Check(len(bad) == 0, rule, "filter/response-used-only-when-present", token.NoPos, "the flow qualifiers call a method on APIStream.GetResponse() only where it was found non-nil (%d uses; unguarded: %v): the selection for an early response runs without a response message", n, bad)
 }
+
+// ---- eighth wave, first half ----
+
+// hrQuotaTrie: the recursive lookup hands back the node the recursion found, and a
+// strategy reports its own configuration.
+func hrQuotaTrie(w *World, r *Report, rule string) {
+	if f := w.Fn("lunar/engine/streams/resources/utils", "QuotaNode.GetNode"); f == nil {
+		r.Undec(rule, "QuotaNode.GetNode", token.NoPos, "function not found")
+	} else {
+		ok, n := true, 0
+		for _, alt := range ReturnAlts(f, 0) {
+			if isNilConst(alt.Val) {
+				continue
+			}
+			n++
+			p := Path(alt.Val)
+			// the receiver itself (id matches) or result #0 of the recursive call
+			rec := false
+			if e, isE := alt.Val.(*ssa.Extract); isE && e.Index == 0 {
+				if c, isC := e.Tuple.(*ssa.Call); isC && c.Call.StaticCallee() != nil && origin(c.Call.StaticCallee()) == origin(f) {
+					rec = true
+				}
+			}
+			if !(rec || p == "param:"+canonParam(f.Params[0])) {
+				ok = false
+			}
+		}
+		r.Check(ok && n == 2, rule, "QuotaNode.GetNode/returns-the-node-that-was-found", f.Pos(), "GetNode returns the receiver when the id matches and otherwise the node found by the recursive call (not the child it descended into): a limit at depth 2 must not resolve to its ancestor")
+	}
+	if f := w.Fn(pkgQuota, "fixedWindow.GetStrategyConfig"); f == nil {
+		r.Undec(rule, "fixedWindow.GetStrategyConfig", token.NoPos, "function not found")
+	} else {
+		ok, n := true, 0
+		for _, alt := range ReturnAlts(f, 0) {
+			n++
+			if !strings.HasSuffix(Path(alt.Val), "fw.strategyConfig") || len(alt.Conds) != 0 {
+				ok = false
+			}
+		}
+		r.Check(ok && n == 1, rule, "fixedWindow.GetStrategyConfig/own-configuration", f.Pos(), "GetStrategyConfig returns the strategy's own configuration (a percentage allocation is taken from the direct parent, not from the root)")
+	}
+}
+
+// hrLimiterRegisters: the limiter asks for the quota under the transaction id (that records the
+// request-to-quota association the error hook releases with).
+func hrLimiterRegisters(w *World, r *Report, rule string) {
+	f := w.Fn("lunar/engine/streams/processors/limiter", "limiterProcessor.Execute")
+	if f == nil {
+		r.Undec(rule, "limiterProcessor.Execute", token.NoPos, "function not found")
+		return
+	}
+	cs := CallsIn(f, false, "ResourceManagementI).GetQuota", "ResourceManagement).GetQuota")
+	ok := len(cs) == 1
+	if ok {
+		a := margs(cs[0])
+		ok = len(a) == 2 && strings.Contains(Path(a[1]), "APIStreamI).GetID(") && strings.HasSuffix(Path(a[0]), ".quotaID")
+	}
+	r.Check(ok, rule, "limiterProcessor.Execute/registers-under-the-transaction-id", f.Pos(), "the limiter asks for GetQuota(p.quotaID, apiStream.GetID())")
+}
+
+// hrHeaderValueMatch: header values are compared case-insensitively, names through GetHeader.
+func hrHeaderValueMatch(w *World, r *Report, rule string) {
+	f := w.Fn(pkgStreamTypes, "OnRequest.DoesHeaderValueMatch")
+	if f == nil {
+		r.Undec(rule, "DoesHeaderValueMatch", token.NoPos, "function not found")
+		return
+	}
+	ok, n := true, 0
+	for _, alt := range ReturnAlts(f, 0) {
+		if b, isC := constBool(alt.Val); isC && !b {
+			continue
+		}
+		n++
+		if !isCallTo0(alt.Val, "strings.EqualFold") {
+			ok = false
+		}
+	}
+	r.Check(ok && n == 1, rule, "DoesHeaderValueMatch/case-insensitive-value", f.Pos(), "a found header matches by strings.EqualFold(existing, wanted)")
+}
+
+// hrSplitURLKeepsEmptyParts: the tokenizer does not drop empty segments (validateURL rejects
+// them for patterns; a request with an empty segment must not match the pattern without it).
+func hrSplitURLKeepsEmptyParts(w *World, r *Report, rule string) {
+	f := w.Fn(pkgURLTree, "splitURL")
+	if f == nil {
+		r.Undec(rule, "splitURL", token.NoPos, "function not found")
+		return
+	}
+	var bad []string
+	Instrs(f, func(in ssa.Instruction) {
+		if i, ok := in.(*ssa.If); ok {
+			if rel, isRel := NormCond(Cond{V: i.Cond, Pol: true}); isRel && (rel.Op == "==" || rel.Op == "!=") {
+				for _, side := range []ssa.Value{rel.L, rel.R} {
+					if s, isS := constString(side); isS && s == "" {
+						bad = append(bad, w.Pos(posOf(i)))
+					}
+				}
+			}
+		}
+	})
+	r.Check(len(bad) == 0, rule, "splitURL/no-part-is-dropped", f.Pos(), "splitURL has no test for an empty part (none is skipped): %v", bad)
+}
+
+// hrFlowGraphNodeEqual: nodes are identified by their processor key.
+func hrFlowGraphNodeEqual(w *World, r *Report, rule string) {
+	f := w.Fn(pkgFlow, "FlowGraphNode.equal")
+	if f == nil {
+		r.Undec(rule, "FlowGraphNode.equal", token.NoPos, "function not found")
+		return
+	}
+	ok, n := true, 0
+	for _, alt := range ReturnAlts(f, 0) {
+		n++
+		rel, isRel := NormCond(Cond{V: alt.Val, Pol: true})
+		if !isRel || rel.Op != "==" || typedField(rel.L) != "FlowGraphNode.processorKey" || typedField(rel.R) != "FlowGraphNode.processorKey" {
+			ok = false
+		}
+	}
+	r.Check(ok && n == 1, rule, "FlowGraphNode.equal/by-processor-key", f.Pos(), "two nodes are equal exactly when their processor keys are equal (the key, not the name of the wrapped processor: `Other.audit` and `audit` are different nodes)")
+}
+
+// hrSystemFlows: the generated start and end flows of a resource have different names and both are attached.
+func hrSystemFlows(w *World, r *Report, rule string) {
+	if f := w.Fn("lunar/engine/streams/resources/utils", "SystemFlowRepresentation.GetFlowTemplate"); f == nil {
+		r.Undec(rule, "GetFlowTemplate", token.NoPos, "function not found")
+	} else {
+		ok := false
+		for _, alt := range ReturnAlts(f, 0) {
+			nm := litField(peel(alt.Val), "Name")
+			if nm == nil {
+				if a, isA := peel(alt.Val).(*ssa.Alloc); isA {
+					nm = litField(a, "Name")
+				}
+			}
+			if nm != nil && Derives(nm, func(x ssa.Value) bool {
+				return isCallTo0(x, "FlowType).String") && strings.Contains(Path(x), "param:locationType")
+			}) {
+				ok = true
+			}
+		}
+		r.Check(ok, rule, "GetFlowTemplate/name-carries-the-location", f.Pos(), "the name of a generated system flow contains locationType.String() (the start and the end flow of one resource are filed by name and must not overwrite each other)")
+	}
+	if f := w.Fn(pkgStreams, "Stream.attachSystemFlows"); f == nil {
+		r.Undec(rule, "attachSystemFlows", token.NoPos, "function not found")
+	} else {
+		var ups []*ssa.MapUpdate
+		Instrs(f, func(in ssa.Instruction) {
+			if mu, ok := in.(*ssa.MapUpdate); ok && Path(mu.Map) == "param:flowReps" {
+				ups = append(ups, mu)
+			}
+		})
+		ok := len(ups) == 2
+		if ok {
+			// each is conditioned on its own flow only
+			for _, mu := range ups {
+				n := 0
+				for _, cd := range CondsOf(mu.Block()) {
+					if condSig(cd) == "" {
+						continue
+					}
+					n++
+				}
+				if n != 1 {
+					ok = false
+				}
+			}
+		}
+		r.Check(ok, rule, "attachSystemFlows/start-and-end-attached-independently", f.Pos(), "the start flow and the end flow of a resource are each stored under their own non-nil test only (a resource with both keeps both)")
+	}
+}
+
+// hrAPIStreamAccessors: the accessors that fall back to the request read the response only when there is one.
+func hrAPIStreamAccessors(w *World, r *Report, rule string) {
+	n := 0
+	var bad []string
+	for _, name := range []string{"GetMethod", "GetHeaders", "GetBody", "GetURL", "GetHeader", "GetSize", "GetStrStatus"} {
+		f := w.Fn(pkgStreamTypes, "APIStream."+name)
+		if f == nil {
+			continue
+		}
+		Instrs(f, func(in ssa.Instruction) {
+			c, ok := in.(*ssa.Call)
+			if !ok || !c.Call.IsInvoke() || typedField(c.Call.Value) != "APIStream.Response" {
+				return
+			}
+			n++
+			op, _ := FindRel(Rels(c.Block()), func(v ssa.Value) bool { return typedField(v) == "APIStream.Response" }, isNilConst)
+			if op != "!=" {
+				bad = append(bad, name)
+			}
+		})
+	}
+	r.Check(len(bad) == 0 && n >= 2, rule, "APIStream/response-read-only-when-present", token.NoPos, "the accessors of the API stream call into s.Response only under s.Response != nil (%d sites; unguarded in %v): after an early response the stream is typed as response without one", n, bad)
+}
+
+// hrEmptyDocument: a YAML document without content decodes to an empty object, never to nil.
+func hrEmptyDocument(w *World, r *Report, rule string) {
+	f := w.Fn("lunar/toolkit-core/configuration", "UnmarshalPolicyRawData")
+	if f == nil {
+		r.Undec(rule, "UnmarshalPolicyRawData", token.NoPos, "function not found")
+		return
+	}
+	n, ok := 0, true
+	for _, st := range fieldStores(f, "UnmarshaledData") {
+		if isNilConst(st.Val) {
+			continue
+		}
+		n++
+		for _, cd := range CondsOf(st.Block()) {
+			rel, isRel := NormCond(cd)
+			if isRel && rel.Op == "==" && isNilConst(rel.R) && strings.HasSuffix(Path(rel.L), "UnmarshaledData") {
+				continue
+			}
+			if isRel && rel.Op == "==" && isNilConst(rel.R) && strings.Contains(Path(rel.L), ".Unmarshal(") {
+				continue // decoding succeeded
+			}
+			ok = false
+		}
+	}
+	r.Check(ok && n == 1, rule, "UnmarshalPolicyRawData/nil-result-always-replaced", f.Pos(), "whenever decoding leaves a nil object it is replaced by an empty one, under no further condition (a file that is all comments must be rejected by validation, not crash the loader)")
+}
+
+// hrParentWalk: the walk up the quota hierarchy asks for the parent it is at.
+func hrParentWalk(w *World, r *Report, rule string) {
+	f := w.Fn(pkgStreams, "Stream.addParentsQuotaReferences")
+	if f == nil {
+		r.Undec(rule, "addParentsQuotaReferences", token.NoPos, "function not found")
+		return
+	}
+	ok, n := true, 0
+	for _, c := range CallsIn(f, false, "ResourceManagement).GetQuota", "ResourceManagementI).GetQuota") {
+		if len(loopHeadersOf(f)) == 0 {
+			ok = false
+		}
+		inLoop := false
+		for _, h := range loopHeadersOf(f) {
+			if loopHas(h, c.Block()) {
+				inLoop = true
+			}
+		}
+		if !inLoop {
+			continue
+		}
+		n++
+		a := margs(c)
+		if _, isPhi := a[0].(*ssa.Phi); !isPhi || !strings.Contains(Path(a[0]), "GetParentID(") {
+			ok = false
+		}
+	}
+	r.Check(ok && n == 1, rule, "addParentsQuotaReferences/asks-for-the-parent-it-is-at", f.Pos(), "inside the loop GetQuota is called with the parent id that advances with the loop (asking for the starting quota again never terminates)")
+}
+
+// hrTimeoutAboveTTL: a queue whose TTL reaches the SPOE processing timeout is rejected (at equality too).
+func hrTimeoutAboveTTL(w *World, r *Report, rule string) {
+	for _, fn := range []struct{ pkg, name string }{{pkgQProc, "queueProcessor.validateProcessingTimeoutIsGreaterTheTTL"}, {pkgConfig, "validateProcessingTimeoutIsGreaterTheTTL"}} {
+		f := w.Fn(fn.pkg, fn.name)
+		if f == nil {
+			r.Undec(rule, fn.name, token.NoPos, "function not found")
+			continue
+		}
+		ok, n := true, 0
+		for _, alt := range ReturnAlts(f, 0) {
+			if isNilConst(alt.Val) {
+				continue
+			}
+			n++
+			found := false
+			for _, rel := range relsOfConds(alt.Conds) {
+				l, rr := Path(rel.L), Path(rel.R)
+				isTO := func(p string) bool { return strings.Contains(p, "GetSpoeProcessingTimeout") || strings.Contains(p, "defaultProcessingTimeout") || strings.HasPrefix(p, "phi[") }
+				isTTL := func(p string) bool { return strings.Contains(p, "queueTTL") }
+				if isTO(l) && isTTL(rr) && rel.Op == "<=" || isTTL(l) && isTO(rr) && rel.Op == ">=" {
+					found = true
+				}
+			}
+			if !found {
+				ok = false
+			}
+		}
+		r.Check(ok && n == 1, rule, shortFn(fnID(f))+"/rejects-timeout-not-above-ttl", f.Pos(), "the error is returned under processingTimeout <= queueTTL (equality included: the verdict of a waiter that times out must arrive before HAProxy stops waiting)")
+	}
+}
+
+// hrScoreIsPriority: the heap score is the configured priority, for every sign.
+func hrScoreIsPriority(w *World, r *Report, rule string) {
+	f := w.Fn(pkgLctx, "calculateScore")
+	if f == nil {
+		r.Undec(rule, "calculateScore", token.NoPos, "function not found")
+		return
+	}
+	ok, n := true, 0
+	for _, alt := range ReturnAlts(f, 0) {
+		n++
+		if alt.Val != ssa.Value(f.Params[0]) || len(alt.Conds) != 0 {
+			ok = false
+		}
+	}
+	r.Check(ok && n == 1, rule, "calculateScore/identity", f.Pos(), "the score of a waiter is its priority, unconditionally (negative priorities keep their order)")
+}
+
+// hrAddRequestCountsFirst: a request takes its place in the count before it becomes visible in the maps.
+func hrAddRequestCountsFirst(w *World, r *Report, rule string) {
+	f := w.Fn(pkgQProc, "RequestWatcher.AddRequest")
+	if f == nil {
+		r.Undec(rule, "RequestWatcher.AddRequest", token.NoPos, "function not found")
+		return
+	}
+	adds := CallsIn(f, false, "atomic.Int64).Add")
+	locks := CallsIn(f, false, "sync.RWMutex).Lock", "sync.Mutex).Lock")
+	ok := len(adds) == 1 && len(locks) >= 1
+	if ok {
+		for _, l := range locks {
+			if !domInstr(adds[0], l) {
+				ok = false
+			}
+		}
+	}
+	r.Check(ok, rule, "AddRequest/counted-before-registered", f.Pos(), "requestCount.Add(1) precedes the map insertions (while a request is being registered it already occupies its slot in the queue-size check)")
+}
+
+// hrCollectedActionsOnlyGrow: the walk only appends to the collected request/response actions.
+func hrCollectedActionsOnlyGrow(w *World, r *Report, rule string) {
+	f := w.Fn("lunar/engine/streams/stream", "Stream.ExecuteFlow")
+	if f == nil {
+		r.Undec(rule, "stream.ExecuteFlow", token.NoPos, "function not found")
+		return
+	}
+	n := 0
+	var bad []string
+	for _, st := range fieldStores(f, "Actions") {
+		n++
+		c, isC := peel(st.Val).(*ssa.Call)
+		if b, isB := ssa.Value(nil), false; isC {
+			_, isB = c.Call.Value.(*ssa.Builtin)
+			_ = b
+			if isB && c.Call.Value.(*ssa.Builtin).Name() == "append" {
+				continue
+			}
+		}
+		bad = append(bad, w.Pos(posOf(st))+" "+trunc(Path(st.Val), 40))
+	}
+	r.Check(len(bad) == 0 && n >= 2, rule, "ExecuteFlow/collected-actions-only-grow", f.Pos(), "every store to actions.Request.Actions / actions.Response.Actions is an append (%d stores; others: %v): what earlier processors contributed is never discarded by the walk", n, bad)
+}
+
+// hrEnsureCopies: applying header edits to the message copies entries, it never adopts the action's map.
+func hrEnsureCopies(w *World, r *Report, rule string) {
+	for _, name := range []string{"ModifyHeadersAction.EnsureRequestIsUpdated", "ModifyRequestAction.EnsureRequestIsUpdated", "GenerateRequestAction.EnsureRequestIsUpdated"} {
+		f := w.Fn(pkgActions, name)
+		if f == nil {
+			r.Undec(rule, name, token.NoPos, "function not found")
+			continue
+		}
+		var bad []string
+		for _, st := range fieldStores(f, "Headers") {
+			if strings.Contains(Path(st.Val), "HeadersToSet") {
+				bad = append(bad, w.Pos(posOf(st)))
+			}
+		}
+		r.Check(len(bad) == 0, rule, name+"/copies-entries", f.Pos(), "the message's Headers map is never replaced by the action's own HeadersToSet map (the accumulated action must not alias the message): %v", bad)
+	}
+}
+
+// hrActionAvailable: a typed-nil action pointer is not an available action.
+func hrActionAvailable(w *World, r *Report, rule string) {
+	f := w.Fn(pkgStreamTypes, "ProcessorIO.IsRequestActionAvailable")
+	if f == nil {
+		r.Undec(rule, "IsRequestActionAvailable", token.NoPos, "function not found")
+		return
+	}
+	ok := len(CallsIn(f, false, "utils.IsInterfaceNil")) == 1
+	r.Check(ok, rule, "IsRequestActionAvailable/typed-nil-is-absent", f.Pos(), "availability of the request action is decided with utils.IsInterfaceNil (a processor that returns a nil *XAction in the interface must not put a nil action into the fold)")
+}
+
+// hrCleanUpFile: removing a file never removes a directory tree.
+func hrCleanUpFile(w *World, r *Report, rule string) {
+	f := w.Fn(pkgConfig, "FileSystemOperation.cleanUpFile")
+	if f == nil {
+		r.Undec(rule, "cleanUpFile", token.NoPos, "function not found")
+		return
+	}
+	ok := len(CallsIn(f, false, "os.Remove")) == 1 && len(CallsIn(f, false, "os.RemoveAll")) == 0
+	r.Check(ok, rule, "cleanUpFile/removes-one-file", f.Pos(), "cleanUpFile uses os.Remove (a payload entry named like an existing directory must not wipe that sub-tree)")
+}
+
+// hrFlowNamesUnique: the loader rejects two flow files that declare the same flow name.
+func hrFlowNamesUnique(w *World, r *Report, rule string) {
+	f := w.Fn(pkgSCfg, "GetFlows")
+	if f == nil {
+		r.Undec(rule, "GetFlows", token.NoPos, "function not found")
+		return
+	}
+	ok, n := true, 0
+	var upd *ssa.MapUpdate
+	Instrs(f, func(in ssa.Instruction) {
+		if mu, isMU := in.(*ssa.MapUpdate); isMU && strings.Contains(mu.Map.Type().String(), "FlowRepI") {
+			upd = mu
+		}
+	})
+	Instrs(f, func(in ssa.Instruction) {
+		lk, isLk := in.(*ssa.Lookup)
+		if !isLk || !lk.CommaOk || upd == nil || lk.X != upd.Map {
+			return
+		}
+		n++
+		if typedField(lk.Index) != "FlowRepresentation.Name" || Path(lk.Index) != Path(upd.Key) {
+			ok = false
+		}
+	})
+	r.Check(ok && n == 1 && upd != nil, rule, "GetFlows/duplicate-looked-up-by-flow-name", f.Pos(), "the duplicate check looks the flow up under flow.Name, the key it is stored under")
+}
+
+// hrValidationDirGuard: the dry run reads the pushed gateway configuration of the validation directory when there is one.
+func hrValidationDirGuard(w *World, r *Report, rule string) {
+	f := w.Fn("lunar/engine/streams/validation", "Validator.ValidateGatewayConfig")
+	if f == nil {
+		r.Undec(rule, "ValidateGatewayConfig", token.NoPos, "function not found")
+		return
+	}
+	cs := CallsIn(f, false, "environment.GetCustomGatewayConfigPath")
+	ok := len(cs) == 1
+	if ok {
+		op, _ := FindRel(Rels(cs[0].Block()), func(v ssa.Value) bool { return strings.HasSuffix(Path(v), "v.validationDir") }, func(v ssa.Value) bool { s, isS := constString(v); return isS && s == "" })
+		ok = op == "!="
+	}
+	r.Check(ok, rule, "ValidateGatewayConfig/custom-path-only-with-a-validation-dir", f.Pos(), "the path inside the validation directory is used only when a validation directory is set (with none, the live gateway configuration is what must be validated)")
+}
+
+// hrIdentityHasher: the hasher that keeps group keys readable returns its input unchanged.
+func hrIdentityHasher(w *World, r *Report, rule string) {
+	f := w.Fn("lunar/engine/utils/obfuscation", "IdentityHasher.HashBytes")
+	if f == nil {
+		r.Undec(rule, "IdentityHasher.HashBytes", token.NoPos, "function not found")
+		return
+	}
+	ok, n := true, 0
+	for _, alt := range ReturnAlts(f, 0) {
+		n++
+		if peel(alt.Val) != ssa.Value(f.Params[1]) || len(alt.Conds) != 0 {
+			ok = false
+		}
+	}
+	r.Check(ok && n == 1, rule, "IdentityHasher.HashBytes/whole-input", f.Pos(), "IdentityHasher returns string(raw) of the whole input (two group values that share a prefix stay different keys)")
+}
+
+// hrCountsCopy: the metrics snapshot of the per-priority counts is a copy.
+func hrCountsCopy(w *World, r *Report, rule string) {
+	f := w.Fn(pkgQueue, "DelayedPriorityQueue.Counts")
+	if f == nil {
+		r.Undec(rule, "DelayedPriorityQueue.Counts", token.NoPos, "function not found")
+		return
+	}
+	ok, n := true, 0
+	for _, alt := range ReturnAlts(f, 0) {
+		n++
+		if typedField(alt.Val) == "DelayedPriorityQueue.requestCounts" || strings.HasSuffix(Path(alt.Val), ".requestCounts") {
+			ok = false
+		}
+	}
+	r.Check(ok && n >= 1, rule, "Counts/returns-a-copy", f.Pos(), "Counts() never returns the live requestCounts map (the metrics reader iterates it outside the lock, Enqueue writes it)")
+}
+
+// hrRunOnRequestUpdates: every action of the remedy chain is applied to the message before the next remedy runs.
+func hrRunOnRequestUpdates(w *World, r *Report, rule string) {
+	f := w.Fn("lunar/engine/runner", "runOnRequest")
+	if f == nil {
+		r.Undec(rule, "runOnRequest", token.NoPos, "function not found")
+		return
+	}
+	en := CallsIn(f, false, "ReqLunarAction).EnsureRequestIsUpdated")
+	pr := CallsIn(f, false, "ReqLunarAction).ReqPrioritize")
+	ok := len(en) == 1 && len(pr) == 1 && domInstr(en[0], pr[0]) && en[0].Block() == pr[0].Block()
+	r.Check(ok, rule, "runOnRequest/each-action-applied-to-the-message", f.Pos(), "inside the loop over the remedies the returned action is applied with EnsureRequestIsUpdated(&args) before it is folded (a later remedy sees the headers an earlier one set)")
+}
